@@ -63,7 +63,8 @@ func cmdJob(args []string) int {
 	harness := fs.String("harness", "", "")
 	params := fs.String("params", "", "")
 	trace := fs.Bool("trace", false, "")
-	solver := fs.String("solver", "z3", "")
+	solver := fs.String("solver", "z3-new", "")
+	eager := fs.Bool("eager", false, "")
 	fs.Parse(args)
 	env, err := newEnv(*repo, *verif)
 	if err != nil {
@@ -76,7 +77,7 @@ func cmdJob(args []string) int {
 		fmt.Println("LOAD ERROR:", err)
 		return 2
 	}
-	res := w.RunJob(exec.JobSpec{Pkg: pkgPath(*pkg), Harness: *harness, Params: parseParams(*params)}, exec.JobOpts{Solver: *solver, TimeoutMS: 60000, Trace: *trace})
+	res := w.RunJob(exec.JobSpec{Pkg: pkgPath(*pkg), Harness: *harness, Params: parseParams(*params)}, exec.JobOpts{Solver: *solver, TimeoutMS: 60000, Trace: *trace, Eager: *eager})
 	printJob(res)
 	return 0
 }
@@ -86,6 +87,9 @@ func printJob(res *exec.JobResult) {
 		res.Spec.Harness, res.Spec.Params, res.Paths, res.States, res.Instrs, res.Forks, res.Merges, res.MergeFails, res.Cut, res.Undecided, res.Discharged, res.Obligations, res.Queries, res.SolverTime, res.Wall, res.Nodes)
 	if res.Err != "" {
 		fmt.Println("  ERR:", res.Err)
+	}
+	for _, e := range res.Slow {
+		fmt.Println("  SLOW:", e)
 	}
 	for _, e := range res.SolverErrs {
 		fmt.Println("  SOLVER ERR:", e)
